@@ -5,4 +5,22 @@ cd "$(dirname "$0")"
 export GOFLAGS=-mod=mod GOPROXY=off GOSUMDB=off GOTOOLCHAIN=local
 unset GOWORK
 [ -x bin/tablelint ] || ./setup.sh >/dev/null 2>&1 || { echo "tablelint build failed" >&2; exit 2; }
-exec ./bin/tablelint check -p "$1" -tier "${2:-quick}" -repo "${VERIF_REPO:-/repo}" -verif "$(pwd)"
+mkdir -p replays
+log="replays/$1.${2:-quick}.log"
+./bin/tablelint check -p "$1" -tier "${2:-quick}" -repo "${VERIF_REPO:-/repo}" -verif "$(pwd)" > "$log" 2>&1
+code=$?
+if [ "$code" -eq 0 ] || [ "$code" -eq 1 ]; then
+  cat "$log"
+  exit "$code"
+fi
+# anything else: the tree could not be loaded (exit 2, no verdict) — or the analysis itself died (stack
+# overflow, out of memory). An analysis that did not complete decided nothing: by the policy "undecided fails"
+# this is reported as a violation, with the log as the replay.
+if grep -q "cannot analyse" "$log"; then
+  tail -n 20 "$log"
+  exit 2
+fi
+head -n 40 "$log"
+echo "UNDECIDED $1.INTERNAL analysis-crash: the analyser terminated abnormally (exit $code); nothing was decided"
+echo "VIOLATION property=$1 replay=$(pwd)/$log"
+exit 1
